@@ -10,7 +10,7 @@ use dsi_bitstream::prelude::*;
 use serde::{Deserialize, Serialize};
 use std::any::Any;
 use std::cell::RefCell;
-use std::io::{BufReader, BufWriter};
+use std::io::{BufReader, BufWriter, Cursor};
 use std::rc::Rc;
 
 // ------------------------------------------------------------------ codes
@@ -181,6 +181,8 @@ pub enum RdBackend {
     SliceBack,
     Adapter { plan: FaultPlan },
     BufAdapter { cap: usize, plan: FaultPlan },
+    /// std::io::Cursor<Vec<u8>> under the adapter; cap = Some(n): through std BufReader
+    StdCursor { cap: Option<usize> },
     Faulty { fail_at: usize, kind: ErrK },
 }
 impl RdBackend {
@@ -192,6 +194,8 @@ impl RdBackend {
             RdBackend::SliceBack => "sliceback",
             RdBackend::Adapter { .. } => "adapter",
             RdBackend::BufAdapter { .. } => "bufadapter",
+            RdBackend::StdCursor { cap: None } => "cursor",
+            RdBackend::StdCursor { cap: Some(_) } => "bufcursor",
             RdBackend::Faulty { .. } => "faulty",
         }
     }
@@ -201,7 +205,7 @@ impl RdBackend {
     pub fn can_clone(&self) -> bool {
         matches!(
             self,
-            RdBackend::MemInf | RdBackend::MemStrict | RdBackend::Adapter { .. } | RdBackend::Faulty { .. }
+            RdBackend::MemInf | RdBackend::MemStrict | RdBackend::Adapter { .. } | RdBackend::StdCursor { cap: None } | RdBackend::Faulty { .. }
         )
     }
     pub fn plan(&self) -> Option<&FaultPlan> {
@@ -302,6 +306,10 @@ fn mk_rd_backend<W: SimWord>(spec: &RdBackend, bytes: &[u8]) -> (AnyWordRead<W>,
             let d = SimDisk::new(words_to_bytes(&words), plan);
             disk = Some(d.handle());
             RdInner::BufAdapter(WordAdapter::new(BufReader::with_capacity((*cap).max(1), d)))
+        }
+        RdBackend::StdCursor { cap: None } => RdInner::Cursor(WordAdapter::new(Cursor::new(words_to_bytes(&words)))),
+        RdBackend::StdCursor { cap: Some(c) } => {
+            RdInner::BufCursor(WordAdapter::new(BufReader::with_capacity((*c).max(1), Cursor::new(words_to_bytes(&words)))))
         }
         RdBackend::Faulty { fail_at, kind } => {
             let fired = Rc::new(RefCell::new(0));
